@@ -323,6 +323,12 @@ func (vc *VC) unop(fr *Frame, st *State, t *ssa.UnOp) {
 	case token.MUL:
 		vc.nilCheck(fr, st, t.X, x, t.Pos(), "load")
 		et := t.X.Type().Underlying().(*types.Pointer).Elem()
+		if g, ok := t.X.(*ssa.Global); ok {
+			if cv, ok := vc.constGlobal(g); ok {
+				fr.vals[t] = cv
+				return
+			}
+		}
 		v := vc.load(st, x, et)
 		v = vc.defVal(fr, t, v)
 		vc.q.Assert(Implies(st.reach, vc.wfAssume(st, v, et, 0)))
@@ -575,7 +581,11 @@ func (vc *VC) binop(fr *Frame, st *State, t *ssa.BinOp) Term {
 		vc.q.Assert(And(Le(r, x), Le(r, y)))
 	}
 	if t.Op == token.OR && !rt.signed {
-		vc.q.Assert(And(Ge(r, x), Ge(r, y)))
+		// x|y = x + y - x&y
+		vc.q.Assert(And(Ge(r, x), Ge(r, y), Le(r, Add(x, y))))
+	}
+	if t.Op == token.XOR && !rt.signed {
+		vc.q.Assert(Le(r, Add(x, y)))
 	}
 	vc.assumed["bit operation "+t.Op.String()+" with non-constant operands is uninterpreted in int mode"] = true
 	return r
